@@ -49,3 +49,158 @@ pub fn paths(alpha: &[Vec<u8>], n: usize) -> Vec<Vec<u8>> {
 	for_each_path(alpha, n, |t| v.push(t.to_vec()));
 	v
 }
+
+/// RAW token alphabet: no structure assumed. level 0 = the seven special bytes + one
+/// representative of the other classes; level 1 adds decoys.
+pub fn raw_alphabet(f: Family, level: u8) -> Vec<Vec<u8>> {
+	let mut v: Vec<&str> = vec!["a", ":", "/", "?", "#", "@", "1", "%41", ".", "[", "]"];
+	if f == Family::Iri {
+		v.push("é");
+	}
+	if level >= 1 {
+		v.extend([";", "=", "+", "-", "~", "A", "%"]);
+	}
+	v.into_iter().map(b).collect()
+}
+
+/// Shards of the RAW(n) space: shard 0 holds the strings of fewer than two tokens, shard
+/// 1 + i*k + j holds every string that starts with tokens (i, j).
+pub fn raw_shard_count(k: usize) -> usize {
+	1 + k * k
+}
+
+/// All strings of at most n tokens over the alphabet that belong to `shard`.
+pub fn for_each_raw(alpha: &[Vec<u8>], n: usize, shard: usize, mut f: impl FnMut(&[u8])) {
+	let k = alpha.len();
+	let mut buf: Vec<u8> = Vec::new();
+	if shard == 0 {
+		f(&buf);
+		if n >= 1 {
+			for t in alpha {
+				f(t);
+			}
+		}
+		return;
+	}
+	if n < 2 {
+		return;
+	}
+	let (i, j) = ((shard - 1) / k, (shard - 1) % k);
+	let mut prefix = alpha[i].clone();
+	prefix.extend_from_slice(&alpha[j]);
+	crate::engine::enumerate::for_each_seq_upto(k, n - 2, |idx| {
+		buf.clear();
+		buf.extend_from_slice(&prefix);
+		for x in idx {
+			buf.extend_from_slice(&alpha[*x]);
+		}
+		f(&buf);
+		true
+	});
+}
+
+pub fn userinfo_options(f: Family, level: u8) -> Vec<Option<Vec<u8>>> {
+	let mut v: Vec<Option<&str>> = vec![None, Some(""), Some("u"), Some("u:p")];
+	if level >= 1 {
+		v.extend([Some(":"), Some("%41"), Some("a:b:c")]);
+		if f == Family::Iri {
+			v.push(Some("é"));
+		}
+	}
+	v.into_iter().map(|o| o.map(b)).collect()
+}
+
+pub fn host_options(f: Family, level: u8) -> Vec<Vec<u8>> {
+	let mut v: Vec<&str> = vec!["", "h", "[::1]", "1.2.3.4"];
+	if level >= 1 {
+		v.extend(["a.b", "[1:2::8]", "[::ffff:1.2.3.4]", "[v1.a:b]", "%41", "h%2E"]);
+		if f == Family::Iri {
+			v.push("é");
+		}
+	}
+	v.into_iter().map(b).collect()
+}
+
+pub fn port_options(level: u8) -> Vec<Option<Vec<u8>>> {
+	let mut v: Vec<Option<&str>> = vec![None, Some(""), Some("8")];
+	if level >= 1 {
+		v.extend([Some("80"), Some("065535")]);
+	}
+	v.into_iter().map(|o| o.map(b)).collect()
+}
+
+/// AUTH: the full product user-info x host x port as (text, parts).
+pub fn authorities(f: Family, level: u8) -> Vec<(Vec<u8>, super::syntax::AuthParts)> {
+	let mut out = Vec::new();
+	for u in userinfo_options(f, level) {
+		for h in host_options(f, level) {
+			for p in port_options(level) {
+				let parts = super::syntax::AuthParts { userinfo: u.clone(), host: h.clone(), port: p.clone() };
+				out.push((super::syntax::recompose_authority(&parts), parts));
+			}
+		}
+	}
+	out
+}
+
+pub fn scheme_options(level: u8) -> Vec<Option<Vec<u8>>> {
+	let mut v: Vec<Option<&str>> = vec![None, Some("s")];
+	if level >= 1 {
+		v.push(Some("ab+1.-"));
+	}
+	v.into_iter().map(|o| o.map(b)).collect()
+}
+
+pub fn query_options(f: Family, level: u8) -> Vec<Option<Vec<u8>>> {
+	let mut v: Vec<Option<&str>> = vec![None, Some(""), Some("q")];
+	if level >= 1 {
+		v.push(Some("a:b/c?d"));
+		if f == Family::Iri {
+			v.push(Some("\u{E000}"));
+		}
+	}
+	v.into_iter().map(|o| o.map(b)).collect()
+}
+
+pub fn fragment_options(_f: Family, level: u8) -> Vec<Option<Vec<u8>>> {
+	let mut v: Vec<Option<&str>> = vec![None, Some(""), Some("f")];
+	if level >= 1 {
+		v.push(Some("a:/?b"));
+	}
+	v.into_iter().map(|o| o.map(b)).collect()
+}
+
+/// REF: compositions of component alphabets, recomposed per RFC 3986 5.3 and kept iff the
+/// reference decomposition gives back the chosen components (drops ambiguous compositions).
+/// Validity is decided by the caller (reference DFA).
+pub fn references(
+	schemes: &[Option<Vec<u8>>],
+	auths: &[Option<Vec<u8>>],
+	paths: &[Vec<u8>],
+	queries: &[Option<Vec<u8>>],
+	fragments: &[Option<Vec<u8>>],
+) -> Vec<(Vec<u8>, super::syntax::Parts)> {
+	let mut out = Vec::new();
+	for s in schemes {
+		for a in auths {
+			for p in paths {
+				for q in queries {
+					for fr in fragments {
+						let parts = super::syntax::Parts {
+							scheme: s.clone(),
+							authority: a.clone(),
+							path: p.clone(),
+							query: q.clone(),
+							fragment: fr.clone(),
+						};
+						let t = super::syntax::recompose(&parts);
+						if super::syntax::split(&t) == parts {
+							out.push((t, parts));
+						}
+					}
+				}
+			}
+		}
+	}
+	out
+}
